@@ -26,8 +26,12 @@ TArchive ==
 (* callers' before/after clock readings so that only certain violations count                   *)
 TBurst ==
   /\ Ev.a = "Burst"
+  \* Ev.ok is sorted by the callers' "before" readings: Limit+1 archives i..j were certainly served within
+  \* one rate window if the latest "after" among them is less than a window after the earliest "before"
   /\ \A i \in DOMAIN Ev.ok : \A j \in DOMAIN Ev.ok :
-        (j = i + Limit) => ~(Ev.ok[j][2] - Ev.ok[i][1] < Ev.rate_us)
+        (j = i + Limit) =>
+           LET late == CHOOSE m \in {Ev.ok[k][2] : k \in i..j} : \A k \in i..j : Ev.ok[k][2] <= m
+           IN  ~(late - Ev.ok[i][1] < Ev.rate_us)
   /\ Ev.n200 >= 1
   /\ \A s \in {Ev.statuses[i] : i \in DOMAIN Ev.statuses} : s \in {200, 429}
 (* a server without a registered GCA has no GCA key file: the request fails, nothing is produced *)
